@@ -8,7 +8,7 @@ Oracle: snapshot model per wrapper partition + content refinement after every st
 from __future__ import annotations
 
 from sim.rng import Stream
-from sim.terms import FALSY_OBJECTS, T, skey, tkey, u
+from sim.terms import EX, FALSY_OBJECTS, T, skey, tkey, u
 
 ID = "C18"
 LEVEL = "exploration"
@@ -108,6 +108,8 @@ def generate(seed, tier):
         kind = g.weighted(list(w.items()))
         uid += 1
         op = {"uid": uid, "w": part, "k": kind}
+        if simple and g.chance(0.4):
+            op["alt"] = True
         if kind == "add":
             op["t"] = [g.pick(subs), g.pick(preds), g.pick(objs)]
             op["g"] = g.randrange(ngraphs)
@@ -192,7 +194,7 @@ def _in_part0(q, part):
 
 
 def execute(trace, ctx):
-    from rdflib import ConjunctiveGraph, Graph
+    from rdflib import BNode, ConjunctiveGraph, Graph, URIRef
     from rdflib.plugins.stores.auditable import AuditableStore
     from rdflib.plugins.stores.memory import Memory
 
@@ -276,6 +278,12 @@ def execute(trace, ctx):
         ctx.op(part, k)
         gname = graphs[op["g"] % len(graphs)] if op.get("g") is not None else None
         via = op.get("via", "graph")
+        # a store without contexts holds one graph whatever a handle on it is called: some operations come through a handle with
+        # another identifier
+        hid = T(gname) if gname is not None else None
+        if simple and op.get("alt") and gname is not None:
+            hid = URIRef(EX + "another-name-for-the-one-graph") if op["uid"] % 2 else BNode()
+            ctx.probe("context-unaware-base-handle-with-another-identifier")
         if via == "handed-out" and (simple or gname is None):
             via = "graph" if gname is not None else "store"
         if k == "add":
@@ -290,11 +298,11 @@ def execute(trace, ctx):
             armed[0] = bool(veto)
             try:
                 if via == "graph":
-                    Graph(st, T(gname)).add(triple)
+                    Graph(st, hid).add(triple)
                 elif via == "cg":
                     ConjunctiveGraph(st, identifier=T(graphs[0])).add(triple + (Graph(st, T(gname)),))
                 else:
-                    st.add(triple, Graph(st, T(gname)))
+                    st.add(triple, Graph(st, hid))
             except SubscriberVeto:
                 ctx.probe("add-interrupted-by-subscriber")
             armed[0] = False
@@ -353,7 +361,7 @@ def execute(trace, ctx):
             try:
                 if gname is not None:
                     if via == "graph":
-                        Graph(st, T(gname)).remove(pat)
+                        Graph(st, hid).remove(pat)
                     elif via == "cg":
                         ConjunctiveGraph(st, identifier=T(graphs[0])).remove(pat + (Graph(st, T(gname)),))
                     elif via == "handed-out":
@@ -369,7 +377,7 @@ def execute(trace, ctx):
                                 if c_.identifier == T(gname):
                                     c_.remove(pat)
                     else:
-                        st.remove(pat, Graph(st, T(gname)))
+                        st.remove(pat, Graph(st, hid))
                 else:
                     if via == "store":
                         st.remove(pat, None)
@@ -411,7 +419,7 @@ def execute(trace, ctx):
             ctx.probe("sparql-update-through-wrapper")
         elif k == "set":
             t = op["t"]
-            Graph(st, T(gname)).set((T(t[0]), T(t[1]), T(t[2])))
+            Graph(st, hid).set((T(t[0]), T(t[1]), T(t[2])))
             gkey = skey(gname)
             model -= {q for q in model if q[0] == skey(t[0]) and q[1] == skey(t[1]) and q[3] == gkey}
             model.add((skey(t[0]), skey(t[1]), skey(t[2]), gkey))
